@@ -165,6 +165,10 @@ def update_statements_for_language(language):
     update_stmt_tree(fc_statements, cf_tree, default_stmts)
     
 
+# Generic clauses replaced by update_for_language, indexed by (id(item), clause).
+_generic_clauses = {}
+_no_clause = object()
+
 def update_for_language(stmts, lang):
     """
     Move language specific entries to current language.
@@ -192,9 +196,20 @@ def update_for_language(stmts, lang):
                 "cleanup",
                 "fail",
         ]:
+            # The tables are module level and may already have been
+            # updated for another language by an earlier library
+            # processed in this process.  Restore the generic clause first.
+            key = (id(item), clause)
+            if key in _generic_clauses:
+                generic = _generic_clauses.pop(key)
+                if generic is _no_clause:
+                    item.pop(clause, None)
+                else:
+                    item[clause] = generic
             specific = lang + "_" + clause
             if specific in item:
                 # XXX - maybe make sure clause does not already exist.
+                _generic_clauses[key] = item.get(clause, _no_clause)
                 item[clause] = item[specific]
 
 
